@@ -92,8 +92,8 @@ def c03(ap, obs, sc):
     rl = {n["id"]: (fid(p), n) for p, n in res_index(ap).items() if "kids" not in n}
     for p, n in task_index(ap).items():
         t = fid(p)
-        if "kids" in n or n.get("effort") is None or not n.get("alloc"):
-            continue
+        if "kids" in n or n.get("effort") is None or not n.get("alloc") or any(x not in rl for x in n["alloc"]):
+            continue        # a resource group in the allocation: nothing is claimed about who works (C10 claims the group books nothing)
         st = sc["tasks"].get(t)
         if not st or not st["sched"]:
             continue
@@ -242,6 +242,36 @@ def c05(ap, obs, sc):
     return bad
 
 
+def alap_deadline(ap, p, sc, obs, edges=None, idx=None):
+    """latest admissible end of a backward-scheduled task: its own end, else the minimum of the project end,
+    the deadline of every enclosing container and (start - gap) of every successor (own edges and edges on an
+    enclosing container); None when a successor is unscheduled or the edge kind is not claimed"""
+    edges = edges or all_edges(ap)
+    idx = idx or task_index(ap)
+    n = idx[p]
+    if n.get("end") is not None:
+        return n["end"]
+    dl = obs["end"]
+    for k in range(len(p) - 1, 0, -1):
+        e = idx[p[:k]].get("end")
+        if e is not None:
+            dl = min(dl, e)
+    if any(e[2] for e in edges[p]):
+        return None
+    for u, es in edges.items():
+        if "kids" in idx[u]:
+            continue
+        for (q, gap, onstart, gaplen) in es:
+            if p[:len(q)] == q:
+                if onstart or gaplen:
+                    return None
+                su = sc["tasks"].get(fid(u))
+                if not su or not su["sched"] or su["start"] is None:
+                    return None
+                dl = min(dl, su["start"] - gap)
+    return dl
+
+
 # ----------------------------------------------------------------------------------------- C06
 def dep_bound(ap, p, sc):
     """the dependency bound of a forward task: own start, else max(project start, inherited start, edges)"""
@@ -290,6 +320,11 @@ def c06(ap, obs, sc):
                 b = dep_bound(ap, p, sc)
                 if b is not None and st["start"] != b:
                     bad.append({"what": "a milestone is not at its dependency bound", "task": t, "date": st["start"], "bound": b})
+            elif ap.get("alap") and n.get("start") is None and n.get("sched") is None:
+                b = alap_deadline(ap, p, sc, obs)
+                if b is not None and st["start"] != b:
+                    bad.append({"what": "a backward-scheduled milestone is not at its bound (own end, else earliest successor start minus gap, enclosing deadlines, project end)",
+                                "task": t, "date": st["start"], "bound": b})
             continue
         u = use.get(t)
         if not u:
@@ -357,7 +392,7 @@ def c08(ap, obs, sc):
     idx = task_index(ap)
     mixed = alap_related(ap) if not ap.get("alap") else set()
     for p, n in idx.items():
-        if "kids" in n or n.get("effort") is None or n.get("alt") or len(n.get("alloc", [])) != 1:
+        if "kids" in n or n.get("effort") is None or n.get("alt") or len(n.get("alloc", [])) != 1 or n["alloc"][0] not in rpaths:
             continue
         t = fid(p)
         st = sc["tasks"].get(t)
@@ -388,38 +423,10 @@ def c08(ap, obs, sc):
                                 "task": t, "resource": r, "bound": b, "idle_slot_start": ts, "task_start": st["start"], "task_end": st["end"]})
                     break
         else:
-            # ALAP: deadline = own end | earliest successor start - gap | project end
-            dl = n.get("end")
+            # ALAP: deadline = own end | min(earliest successor start - gap, deadlines of the enclosing containers, project end)
+            dl = alap_deadline(ap, p, sc, obs, edges, idx)
             if dl is None:
-                dl = obs["end"]
-                succ_starts = []
-                unknown = False
-                for u, es in edges.items():
-                    if "kids" in idx[u]:
-                        continue
-                    for (q, gap, onstart, gaplen) in es:
-                        if p[:len(q)] == q:
-                            if onstart or gaplen:
-                                unknown = True
-                                continue
-                            su = sc["tasks"].get(fid(u))
-                            if not su or not su["sched"] or su["start"] is None:
-                                unknown = True
-                            else:
-                                succ_starts.append(su["start"] - gap)
-                cont_end = None
-                for k in range(len(p) - 1, 0, -1):       # innermost dated container wins
-                    if idx[p[:k]].get("end") is not None:
-                        cont_end = idx[p[:k]]["end"]
-                        break
-                if unknown or any(e[2] for e in edges[p]):
-                    continue
-                if succ_starts:
-                    dl = min([dl] + succ_starts)
-                    if cont_end is not None:
-                        continue          # successor bound and container deadline combined: not claimed here
-                elif cont_end is not None:
-                    dl = min(dl, cont_end)
+                continue
             if st["end"] > dl:
                 bad.append({"what": "an ALAP task ends after its deadline", "task": t, "end": st["end"], "deadline": dl})
                 continue
